@@ -78,7 +78,16 @@ var Global = &Source{}
 
 type globalReader struct{}
 
-func (globalReader) Read(p []byte) (int, error) { return Global.Read(p) }
+// Dispatch, if set, selects the source of the running task (conc engine: one source per task,
+// so that tasks share no harness state).
+var Dispatch func() *Source
+
+func (globalReader) Read(p []byte) (int, error) {
+	if Dispatch != nil {
+		return Dispatch().Read(p)
+	}
+	return Global.Read(p)
+}
 
 // Install replaces crypto/rand.Reader by the simulated source.
 func Install() { rand.Reader = globalReader{} }
